@@ -23,6 +23,8 @@ import traceback
 VERIF_DIR = os.path.dirname(os.path.dirname(os.path.abspath(__file__)))
 REPO_DIR = os.environ.get("VERIF_REPO", "/repo")
 NPROC = int(os.environ.get("VERIF_NPROC", "16"))
+# evidence/ and replays/ are written below OUT_DIR (the sensitivity audit points it elsewhere)
+OUT_DIR = os.environ.get("VERIF_OUT_DIR", VERIF_DIR)
 
 
 class HarnessError(Exception):
@@ -368,7 +370,7 @@ def match_known(known, prop, signature):
 
 
 def write_evidence(check_id, mod, tier, seed, stats, wall, violations, extra=None):
-    os.makedirs(os.path.join(VERIF_DIR, "evidence"), exist_ok=True)
+    os.makedirs(os.path.join(OUT_DIR, "evidence"), exist_ok=True)
     cov = dict(
         evaluations=int(stats["evaluations"]),
         distinct_nontrivial=int(stats["distinct_nontrivial"]),
@@ -389,7 +391,7 @@ def write_evidence(check_id, mod, tier, seed, stats, wall, violations, extra=Non
     ev = dict(property_id=check_id, tier=tier, seed=int(seed), level=mod.LEVEL,
               coverage=cov, assumptions=list(getattr(mod, "ASSUMPTIONS", [])),
               wall_s=round(float(wall), 2), violations=int(violations))
-    path = os.path.join(VERIF_DIR, "evidence", f"{check_id}.json")
+    path = os.path.join(OUT_DIR, "evidence", f"{check_id}.json")
     tmp = path + ".tmp"
     with open(tmp, "w") as f:
         json.dump(ev, f, indent=1, default=_json_default)
@@ -511,7 +513,7 @@ def run_check(check_id, tier, seed, only_sub=None):
         signature = f"{sub.name}/{sigc}"
         best, calls = shrunk.get((sub.name, sigc), (rec["case"], 0))
         # confirm the shrunk case still fails with this signature in this process' child
-        rdir = os.path.join(VERIF_DIR, "replays", check_id)
+        rdir = os.path.join(OUT_DIR, "replays", check_id)
         os.makedirs(rdir, exist_ok=True)
         safe_sig = "".join(ch if ch.isalnum() or ch in "-_." else "_" for ch in signature)[:80]
         path = os.path.join(rdir, f"{safe_sig}-{chash(best)}.json")
@@ -521,7 +523,7 @@ def run_check(check_id, tier, seed, only_sub=None):
                            failing_cases_seen=rec["count"], shrink_calls=calls,
                            case=best, unshrunk_case=rec["case"]),
                       f, indent=1, default=_json_default)
-        rel = os.path.relpath(path, VERIF_DIR)
+        rel = os.path.relpath(path, OUT_DIR) if OUT_DIR == VERIF_DIR else path
         print(f"VIOLATION property={check_id} replay={rel}   # {signature}: {rec['msg']} (cases: {rec['count']})")
         stats["violation_sigs"].append(dict(signature=signature, cases=rec["count"], replay=rel))
         violations += 1
